@@ -307,7 +307,8 @@ def emit(fam):
             w('#[cfg(feature = "c13")] #[kani::proof] #[kani::unwind(%d)] pub fn c13%s_derived_%s_max() { h_max_derived::<%s, %d>() }' % (u, q, nm, t.name, n))
         single = isinstance(t, S) and len([f for f in t.fields if f.attr != "skip"]) == 1
         if single or t.name in ("SMixed3", "ETuple", "EAllSkipped", "SAllSkipped", "SUnit"):
-            w('#[cfg(feature = "c07")] #[kani::proof] #[kani::unwind(%d)] pub fn c07%s_derived_%s_entry() { crate::c07_entry::h_entry::<%s, %d>(2) }' % (u, q, nm, t.name, n))
+            wide = any(f.attr in ("compact", "encoded_as") and TY[f.ty][3] >= 64 for f in (t.fields if isinstance(t, S) else []))
+            w('#[cfg(feature = "c07")] #[kani::proof] #[kani::unwind(%d)] pub fn c07%s_derived_%s_entry() { crate::c07_entry::h_entry::<%s, %d>(2) }' % (u, "t" if wide else q, nm, t.name, n))
         if isinstance(t, S) and t.transparent:
             w('#[cfg(feature = "c05")] #[kani::proof] #[kani::unwind(%d)] pub fn c05%s_%s_boxed_dec() { h_dec::<Box<%s>, %d>() }' % (u, q, nm, t.name, l))
             if t.maxlen <= 5:
